@@ -12,7 +12,7 @@ import (
 	"verif/harness/world"
 )
 
-type wdState struct{} // withdrawal side is defined by C05; unused here
+type wdState struct{} // placeholder
 
 // depMutators: each takes a truthful deposit item (and its header list) and distorts it.
 type depMutator struct {
